@@ -24,9 +24,9 @@ func init() {
 		Assumptions: []string{"buildReferrers and replaceAll visit exactly what Operands yields (checked: they call Operands)"},
 		Run:         runC02,
 		Mutants: []Mutant{
-			{Name: "switch-header-block-saved-before-tag", File: "go/ir/builder.go", Rule: "R2.6", KeyPart: "switchStmt::entry::b.expr(fn, s.Tag)",
+			{Name: "switch-header-block-saved-before-tag", File: "go/ir/builder.go", Rule: "R2.6", KeyPart: "switchStmt::saved-block::b.expr(fn, s.Tag)",
 				Old: "\ttag := b.expr(fn, s.Tag)\n\t// Lowering the tag may open new blocks (a && b, a || b); the switch is\n\t// emitted in the block that is current afterwards.\n\tentry := fn.currentBlock\n", New: "\tentry := fn.currentBlock\n\ttag := b.expr(fn, s.Tag)\n"},
-			{Name: "typeswitch-header-block-saved-before-tag", File: "go/ir/builder.go", Rule: "R2.6", KeyPart: "typeSwitchStmt::entry",
+			{Name: "typeswitch-header-block-saved-before-tag", File: "go/ir/builder.go", Rule: "R2.6", KeyPart: "typeSwitchStmt::saved-block",
 				Old: "\tvar tag Value\n\tswitch e := s.Assign.(type) {\n\tcase *ast.ExprStmt: // x.(type)\n", New: "\tentry := fn.currentBlock\n\tvar tag Value\n\tswitch e := s.Assign.(type) {\n\tcase *ast.ExprStmt: // x.(type)\n",
 				More: []Edit{{File: "go/ir/builder.go", Old: "\tentry := fn.currentBlock\n\tdone := fn.newBasicBlock(\"typeswitch.done\")\n", New: "\tdone := fn.newBasicBlock(\"typeswitch.done\")\n"}}},
 			{Name: "operand-not-listed", File: "go/ir/ssa.go", Rule: "R2.1", KeyPart: "MapUpdate",
@@ -702,7 +702,7 @@ func runC02(c *Ctx) {
 			}
 		}
 		reviewed := map[string]string{
-			"(*honnef.co/go/tools/go/ir.builder).switchStmt::entry::b.expr(fn, cond)": "the case expressions lowered while the header block is current are constants (the `dynamic` test above sends every other switch to switchStmtDynamic), and b.expr emits nothing for a constant",
+			"(*honnef.co/go/tools/go/ir.builder).switchStmt::saved-block::b.expr(fn, cond)": "the case expressions lowered while the header block is current are constants (the `dynamic` test above sends every other switch to switchStmtDynamic), and b.expr emits nothing for a constant",
 		}
 		n := 0
 		for _, fn := range funcs {
@@ -807,7 +807,7 @@ func runC02(c *Ctx) {
 						}
 					}
 				})
-				key := FuncKey(fn) + "::" + name
+				key := FuncKey(fn) + "::saved-block"
 				if len(bad) == 0 {
 					c.Check(key+"::saved-block-still-open", ld.Pos(), true, "nothing that can end the block runs while the saved block is current and before it is emitted into again")
 					return
